@@ -811,9 +811,10 @@ class ClientGenerator:
         argument_names = set(arg.arg for arg in arguments.args)
 
         for variable in mapped_variable_names:
-            variable_names[variable] = (
-                f"_{variable}" if variable in argument_names else variable
-            )
+            name = variable
+            while name in argument_names:
+                name = f"_{name}"
+            variable_names[variable] = name
 
         return variable_names
 
